@@ -377,4 +377,115 @@ theorem fromList_lids (n : Net) (sel : List Id) (c : Bool) (a : Id) :
   · simp only [if_true, Net.cleanupSignRefs_lids, Net.cleanupLightRefs_lids, Net.cleanupLaneletRefs_lids]
     exact hb
 
+/-! ### intersections and incoming elements by id -/
+
+/-- the network holds an intersection `x` with an incoming element `kid` -/
+def Net.hasInc (n : Net) (x kid : Id) : Prop := ∃ i ∈ n.inters, i.id = x ∧ ∃ k ∈ i.incomings, k.id = kid
+
+theorem iids_eq_shapes (n : Net) : n.iids = n.shapes.map (·.1) := by
+  simp [Net.iids, Net.shapes, Intersection.shape, List.map_map, Function.comp_def]
+
+theorem hasInc_iff_shapes (n : Net) (x kid : Id) : n.hasInc x kid ↔ ∃ sh ∈ n.shapes, sh.1 = x ∧ kid ∈ sh.2 := by
+  simp only [Net.hasInc, Net.shapes, List.mem_map]
+  constructor
+  · rintro ⟨i, hi, rfl, k, hk, rfl⟩
+    exact ⟨i.shape, ⟨i, hi, rfl⟩, rfl, List.mem_map.2 ⟨k, hk, rfl⟩⟩
+  · rintro ⟨_, ⟨i, hi, rfl⟩, rfl, hm⟩
+    obtain ⟨k, hk', he⟩ := List.mem_map.1 hm
+    exact ⟨i, hi, rfl, k, hk', he⟩
+
+theorem iids_of_shapes_eq {n n' : Net} (h : n'.shapes = n.shapes) : n'.iids = n.iids := by
+  rw [iids_eq_shapes, iids_eq_shapes, h]
+
+theorem hasInc_of_shapes_eq {n n' : Net} (h : n'.shapes = n.shapes) (x kid : Id) : n'.hasInc x kid ↔ n.hasInc x kid := by
+  rw [hasInc_iff_shapes, hasInc_iff_shapes, h]
+
+theorem shapes_of_inters_eq {n n' : Net} (h : n'.inters = n.inters) : n'.shapes = n.shapes := by
+  simp [Net.shapes, h]
+
+/-! ### cut-out: exactly which incoming elements and intersections are taken over -/
+
+theorem Incoming.cut_some_nonempty {P : Id → Bool} {k k' : Incoming} (h : k.cut P = some k') :
+    (∃ a ∈ k.inc, P a = true) ∧ (∃ a ∈ k.right ++ k.straight ++ k.left, P a = true) := by
+  unfold Incoming.cut at h
+  simp only at h
+  split at h
+  · cases h
+  · rename_i h1
+    split at h
+    · cases h
+    · rename_i h2
+      constructor
+      · cases hl : keepIn P k.inc with
+        | nil => rw [hl] at h1; simp at h1
+        | cons a as =>
+          have : a ∈ keepIn P k.inc := by rw [hl]; exact List.mem_cons_self
+          exact ⟨a, (mem_keepIn.1 this).1, (mem_keepIn.1 this).2⟩
+      · have hne : ¬ (keepIn P k.left = [] ∧ keepIn P k.straight = [] ∧ keepIn P k.right = []) := by
+          rintro ⟨z1, z2, z3⟩
+          rw [z1, z2, z3] at h2
+          simp at h2
+        have : ∃ a, a ∈ keepIn P k.left ∨ a ∈ keepIn P k.straight ∨ a ∈ keepIn P k.right := by
+          cases h1' : keepIn P k.left with
+          | cons a _ => exact ⟨a, Or.inl List.mem_cons_self⟩
+          | nil =>
+            cases h2' : keepIn P k.straight with
+            | cons a _ => exact ⟨a, Or.inr (Or.inl List.mem_cons_self)⟩
+            | nil =>
+              cases h3' : keepIn P k.right with
+              | cons a _ => exact ⟨a, Or.inr (Or.inr List.mem_cons_self)⟩
+              | nil => exact absurd ⟨h1', h2', h3'⟩ hne
+        obtain ⟨a, ha⟩ := this
+        simp only [List.mem_append]
+        rcases ha with ha | ha | ha
+        · exact ⟨a, Or.inr (mem_keepIn.1 ha).1, (mem_keepIn.1 ha).2⟩
+        · exact ⟨a, Or.inl (Or.inr (mem_keepIn.1 ha).1), (mem_keepIn.1 ha).2⟩
+        · exact ⟨a, Or.inl (Or.inl (mem_keepIn.1 ha).1), (mem_keepIn.1 ha).2⟩
+
+theorem Intersection.cut_some_nonempty {P : Id → Bool} {i i' : Intersection} (h : i.cut P = some i') :
+    ∃ k', k' ∈ i'.incomings := by
+  have e := Intersection.cut_some h
+  unfold Intersection.cut at h
+  simp only at h
+  split at h
+  · cases h
+  · rename_i h1
+    rw [e]
+    cases hl : i.incomings.filterMap (·.cut P) with
+    | nil => rw [hl] at h1; simp at h1
+    | cons a as => exact ⟨a, List.mem_cons_self⟩
+
+/-- every incoming element of a cut-out network comes from one that keeps an incoming lanelet and a successor -/
+theorem cutOut_inter_origin {n n' : Net} {keep : Id → Bool} {c : Bool} (h : n.cutOut keep c = .ok n')
+    {i' : Intersection} (hi' : i' ∈ n'.inters) :
+    ∃ i ∈ n.inters, i.id = i'.id ∧ (∃ k', k' ∈ i'.incomings) ∧ ∀ k' ∈ i'.incomings, ∃ k ∈ i.incomings, k.id = k'.id ∧
+      (∃ a ∈ k.inc, a ∈ n'.lids) ∧ (∃ a ∈ k.right ++ k.straight ++ k.left, a ∈ n'.lids) := by
+  have hl := cutOut_lids h
+  obtain ⟨_, _, rfl⟩ := cutOut_ok h
+  have hP : ∀ a, (fun a => (((n.cutKept keep).map (·.id))).contains a) a = true → a ∈ n.lids.filter keep := by
+    intro a ha
+    rw [← cutBase_lids]
+    simpa [Net.cutBase, Net.lids] using ha
+  rw [hl]
+  have base : ∀ i1 ∈ (n.cutBase keep).inters, ∃ i ∈ n.inters, i.id = i1.id ∧ (∃ k', k' ∈ i1.incomings) ∧
+      ∀ k' ∈ i1.incomings, ∃ k ∈ i.incomings, k.id = k'.id ∧
+        (∃ a ∈ k.inc, a ∈ n.lids.filter keep) ∧ (∃ a ∈ k.right ++ k.straight ++ k.left, a ∈ n.lids.filter keep) := by
+    intro i1 hi1
+    obtain ⟨i, hi, hc⟩ := List.mem_filterMap.1 hi1
+    refine ⟨i, hi, by rw [Intersection.cut_some hc], Intersection.cut_some_nonempty hc, ?_⟩
+    intro k' hk'
+    rw [Intersection.cut_some hc] at hk'
+    obtain ⟨k, hk, hck⟩ := List.mem_filterMap.1 hk'
+    obtain ⟨⟨a, ha, hpa⟩, ⟨b, hb, hpb⟩⟩ := Incoming.cut_some_nonempty hck
+    exact ⟨k, hk, by rw [Incoming.cut_some hck], ⟨a, ha, hP a hpa⟩, ⟨b, hb, hP b hpb⟩⟩
+  cases c
+  · exact base i' hi'
+  · simp only [if_true] at hi'
+    obtain ⟨i1, hi1, rfl⟩ := List.mem_map.1 hi'
+    obtain ⟨i, hi, hid, ⟨k0, hk0⟩, hks⟩ := base i1 hi1
+    refine ⟨i, hi, hid, ⟨k0.cleanL _, List.mem_map.2 ⟨k0, hk0, rfl⟩⟩, ?_⟩
+    intro k' hk'
+    obtain ⟨k1, hk1, rfl⟩ := List.mem_map.1 hk'
+    exact hks k1 hk1
+
 end CR.Refs
